@@ -586,7 +586,8 @@ def main(tier, seed):
             '<=2 over the full alphabet and 3 over a reduced one, sent pipelined; for each, every '
             'schedule of pending validator futures, begin_auth futures, reload_config executor '
             'jobs and packet deliveries with at most `bound` deviations from FIFO; the same over a reduced '
-            'alphabet against servers whose per-user keys come from an sshd-style configuration (%u / Match User); distinct = '
+            'alphabet against servers whose per-user keys come from an sshd-style configuration (%u / Match User); real clients: '
+            'what the server offers (5 keyboard-interactive styles, password, publickey) x what the client holds x 3 method orders; distinct = '
             'distinct (history, schedule, outcome)')
     return core.finish(PROP, tier, seed, 'model_checking', acc, t0, rule,
                        {'deviation_bound': bound, 'histories': len(hs),
@@ -598,6 +599,11 @@ def main(tier, seed):
 
 def replay(rep):
     r = rep['replay']
+    if r.get('kind') == 'matrix':
+        import converse_c05
+        acc = converse_c05.matrix_worker([tuple(r['case'])])
+        print(json.dumps(acc.violations, indent=1, default=repr))
+        return 1 if acc.violations else 0
     if r.get('kind') == 'converse':
         import converse_c05
         acc = converse_c05.run(only=r['name'])
